@@ -290,6 +290,37 @@ def check_state_writers(ctx: Ctx):
         ctx.undecided("R15.6.floor", None, None, "floor:R15.6", f"{n} attribute writers outside __init__ found, confirmed floor is 4 (the tabled setters)")
 
 
+ALIAS_TABLE: dict = {
+    # "<function qual>:<name>": reason  - in-place writes that are part of the function's contract
+}
+
+
+def check_param_aliasing(ctx: Ctx):
+    """R15.8 (ALIAS/EFFECT as dataflow): no function of the package writes in place into an
+    array that may be (a view of) one it received from its caller - neither by a subscript
+    store, an augmented assignment, out=..., np.copyto/put/place, nor .sort()/.fill()/....
+    May-alias facts are propagated flow-sensitively through assignments, views
+    (slices, .T, reshape, np.asarray, astype(copy=False), attributes of a received object) and,
+    with return summaries, through calls of package functions."""
+    from .aliasflow import AliasFlow
+
+    af = AliasFlow(ctx.prog)
+    n_funcs = 0
+    for f in ctx.prog.package_functions():
+        if f.parent is not None or f.module.rel.startswith("panoptica_statistics"):
+            continue
+        n_funcs += 1
+        for node, name, how, org in af.effects.get(f.qual, []):
+            key = f"{f.qual}:{name}"
+            ok = key in ALIAS_TABLE
+            params = [p.name for p in f.call_params]
+            src = [params[i] if 0 <= i < len(params) else "self" for i in org]
+            ctx.decide("R15.8", f, node, f"{f.qual}:{name}:{how}", "no in-place write into an array that may be the caller's", ok, {"statement": norm(node)[:90], "may_alias_parameter": src, "reason": ALIAS_TABLE.get(key)})
+    ctx.ok("R15.8", None, None, "alias-effect:package", f"may-alias/effect analysis of {n_funcs} functions: no unlisted in-place write into a received array", {"functions": n_funcs, "return_summaries": sum(1 for v in af.summary.values() if v)}, nontrivial=False)
+    if n_funcs < 100:
+        ctx.undecided("R15.8.floor", None, None, "floor:R15.8", f"{n_funcs} functions analysed, confirmed floor is 100")
+
+
 def check_globals(ctx: Ctx):
     prog = ctx.prog
     n = 0
@@ -358,6 +389,7 @@ def check(ctx: Ctx):
     check_pools(ctx)
     check_state_writers(ctx)
     check_globals(ctx)
+    _guard(ctx, "R15.8", check_param_aliasing)
 
 
 _E = "panoptica/panoptica_evaluator.py"
